@@ -145,9 +145,10 @@ def gen_predicates():
         term, kind = tr.expr(first.value)
         if kind != 'nat':
             raise Decline('common is not a bit set')
-        rest = ast.unparse(ast.Module(body=body[1:], type_ignores=[]))
-        if 'double(common)' not in rest or '_mapping[extent]' not in rest:
-            raise Decline('Concept.%s no longer closes `common` and looks it up' % name)
+        rest = [ast.unparse(st) for st in body[1:]]
+        want = ['extent = self.lattice._context._extents.double(common)', 'return self.lattice._mapping[extent]']
+        if rest != want:
+            raise Decline('Concept.%s no longer closes `common` with the object closure and looks it up in its own lattice: %r' % (name, rest))
         lines.append('def %s (x y : Nat) : Nat := %s' % (lean, term.replace(' t ', ' t ')))
     # the operator aliases must still point at the named methods
     aliases = {'__le__': 'implies', '__ge__': 'subsumes', '__lt__': 'properly_implies', '__gt__': 'properly_subsumes',
